@@ -16,9 +16,12 @@ import (
 func ruleEntryPointsStoreNothing(w *World, r *Report, rule string) {
 	ro := resolveRoles(w)
 	fns := []*FuncInfo{ro.resolve, w.MustFn(w.Godi, "(*scope).Get"), w.MustFn(w.Godi, "(*scope).GetKeyed"), w.MustFn(w.Godi, "(*scope).GetGroup"),
-		w.MustFn(w.Godi, "(*provider).Get"), w.MustFn(w.Godi, "(*provider).GetKeyed"), w.MustFn(w.Godi, "(*provider).GetGroup"), ro.getInstance, ro.getSingleton,
+		w.MustFn(w.Godi, "(*provider).Get"), w.MustFn(w.Godi, "(*provider).GetKeyed"), w.MustFn(w.Godi, "(*provider).GetGroup"), ro.getInstance, ro.getSingleton, // either may be nil when the one-line lookup was inlined
 		w.MustFn(w.Godi, "(*provider).findDescriptor"), w.MustFn(w.Godi, "(*provider).findGroupDescriptors")}
 	for _, fi := range fns {
+		if fi == nil {
+			continue
+		}
 		r.Analysed(fi)
 		info := fi.Pkg.TypesInfo
 		n := 0
@@ -106,11 +109,11 @@ func ruleResolveSwitch(w *World, r *Report, rSingleton, rScoped, rTransient stri
 		}{}
 		for _, nd := range fl.Nodes() {
 			if as, ok := nd.(*ast.AssignStmt); ok && len(as.Lhs) == 2 && len(as.Rhs) == 1 {
-				if c, ok := unparen(as.Rhs[0]).(*ast.CallExpr); ok && callee(info, c) == ro.getInstance.Obj && len(c.Args) == 1 {
+				if tbl, key := ro.lookupSite(w, info, as.Rhs[0]); tbl == ro.cache && key != nil {
 					hitVars[objOf(info, as.Lhs[1])] = struct {
 						val types.Object
 						key string
-					}{objOf(info, as.Lhs[0]), exprStr(c.Args[0])}
+					}{objOf(info, as.Lhs[0]), exprStr(key)}
 				}
 			}
 		}
@@ -336,7 +339,7 @@ func ruleWhoWritesTables(w *World, r *Report, rSingle, rCache string, la *LockAn
 		for _, fi := range w.FuncsOf(w.Godi) {
 			info := fi.Pkg.TypesInfo
 			for _, c := range callsIn(fi.Decl.Body, true) {
-				if callee(info, c) == ro.getInstance.Obj {
+				if ro.getInstance != nil && callee(info, c) == ro.getInstance.Obj {
 					rcv, _, _ := methodCall(c)
 					if id, ok := unparen(rcv).(*ast.Ident); !ok || !w.isReceiver(info.Uses[id]) {
 						n++
@@ -384,8 +387,8 @@ func ruleCreateCallSites(w *World, r *Report, rule string) {
 	present := map[types.Object]string{}
 	ast.Inspect(fi.Decl.Body, func(x ast.Node) bool {
 		if as, ok := x.(*ast.AssignStmt); ok && len(as.Lhs) == 2 && len(as.Rhs) == 1 {
-			if c, ok := unparen(as.Rhs[0]).(*ast.CallExpr); ok && ro.isGetSingleton(w, callee(info, c)) && len(c.Args) == 1 {
-				present[objOf(info, as.Lhs[1])] = exprStr(c.Args[0])
+			if tbl, key := ro.lookupSite(w, info, as.Rhs[0]); tbl == ro.singletons && key != nil {
+				present[objOf(info, as.Lhs[1])] = exprStr(key)
 			}
 		}
 		return true
@@ -926,11 +929,15 @@ func ruleFieldFilters(w *World, r *Report, rule string) {
 		info := fi.Pkg.TypesInfo
 		// the loop over struct fields: for i := 0; i < T.NumField(); i++ (in the function or a private helper of it)
 		var loop *fieldLoop
+		var loopFn *FuncInfo // the private helper that holds the loop, if it is not fi itself
 		for _, f := range w.Within(fi, 2) {
 			if loop != nil {
 				break
 			}
 			loop = structFieldLoop(f.Pkg.TypesInfo, f.Decl.Body)
+			if loop != nil && f != fi {
+				loopFn = f
+			}
 		}
 		con := fi.Name() + "#field-filters"
 		if loop == nil {
@@ -939,6 +946,22 @@ func ruleFieldFilters(w *World, r *Report, rule string) {
 		}
 		got := res{}
 		preds, guardEnd := skipPredicates(w, info, loop.Body)
+		if loopFn != nil {
+			// the walker is a shared (possibly generic) helper: its parameters are read as the
+			// arguments this sibling passes (collectFields(a, structType, inType, build))
+			for _, c := range callsIn(fi.Decl.Body, true) {
+				cal := callee(info, c)
+				if cal != nil && cal.Origin() != nil {
+					cal = cal.Origin()
+				}
+				if cal == loopFn.Obj {
+					skipSubst = &substCtx{h: loopFn, call: c, callerInfo: info}
+					preds, guardEnd = skipPredicates(w, loopFn.Pkg.TypesInfo, loop.Body)
+					skipSubst = nil
+					break
+				}
+			}
+		}
 		for _, c := range preds {
 			switch {
 			case strings.Contains(c, "IsExported()") && strings.HasPrefix(c, "!"):
@@ -1562,10 +1585,24 @@ func skipPredicates(w *World, info *types.Info, body *ast.BlockStmt) (preds []st
 				}
 			}
 		}
-		preds = append(preds, normExpr(info, ifs.Cond))
+		if skipSubst != nil {
+			preds = append(preds, normExprSub(info, ifs.Cond, skipSubst.h, skipSubst.call, skipSubst.callerInfo))
+		} else {
+			preds = append(preds, normExpr(info, ifs.Cond))
+		}
 	}
 	return
 }
+
+// skipSubst, when set, makes skipPredicates read the parameters of the helper that
+// holds the loop as the arguments of one call of it.
+type substCtx struct {
+	h          *FuncInfo
+	call       *ast.CallExpr
+	callerInfo *types.Info
+}
+
+var skipSubst *substCtx
 
 func helperSkipPredicates(w *World, info *types.Info, c *ast.CallExpr) []string {
 	cal := callee(info, c)
